@@ -73,6 +73,8 @@ class C20System(BuilderSystem):
             "addF": Hook("addF", st.log, add={"F": 1500}),
             "addQ": Hook("addQ", st.log, add={"Q": 7}, fresh=True),
             "onlyF": Hook("onlyF", st.log, keep=("F",)),
+            # the docstring example of add_hook: a hook that brings the requested feed rate into the machine's range
+            "clampF": Hook("clampF", st.log, inner=lambda o, t, p, s: (p.update(F=min(max(p.get("F"), 100), 3000)) if p.get("F") is not None else None) or p),
             "zeroFS": Hook("zeroFS", st.log, add={"F": 0, "S": 0}),           # a hook that stops feed and power (laser off while travelling)
             "ext1": Hook("ext1", st.log, inner=extrusion_hook(*GEOM["ext1"])),
             "ext2": Hook("ext2", st.log, inner=extrusion_hook(*GEOM["ext2"])),
@@ -83,6 +85,8 @@ class C20System(BuilderSystem):
         st.e_mode = "absolute"
         st.e_last = 0.0
         st.e_exact = 0.0          # exact running total since the last E reset (None: not determined any more)
+        if getattr(self, "limits", False):
+            g.set_bounds("feed-rate", 100, 3000)
         if not getattr(self, "unknown_start", False):
             st.machine.feed_words([("G", "92"), ("X", "1"), ("Y", "2"), ("Z", "0"), ("E", "0")])
 
@@ -110,6 +114,10 @@ class C20System(BuilderSystem):
             # the F/S family: moves that carry F and S words of their own, no paths and no extrusion bookkeeping
             ops = [o for o in ops if not o[0].startswith("trace.") and o[0] not in ("set_extrusion_mode", "set_axis", "move_absolute", "rapid_absolute")]
             ops += [["move", [], {"x": 1.5, "S": 40}], ["move", [], {"y": -1.0, "F": 600, "S": 0}]]
+        if getattr(self, "limits", False):
+            # feed-rate limits in force (set in setup): moves asking for a feed rate outside them, which a hook may bring back inside
+            ops = [o for o in ops if not o[0].startswith("trace.") and o[0] not in ("set_extrusion_mode", "set_axis", "move_absolute", "rapid_absolute")]
+            ops += [["move", [], {"x": 1.5, "F": 9000}], ["move", [], {"y": -1.0, "F": 50}], ["move", [], {"x": 2.0, "F": 3000}]]
         if getattr(self, "unknown_start", False):
             # calls after which some axis position is unknown to the builder (hooks are handed 0 for such an axis, never None)
             ops = [o for o in ops if not o[0].startswith("trace.") and o[0] not in ("move_absolute", "rapid_absolute")]
@@ -162,6 +170,23 @@ class C20System(BuilderSystem):
         exc, chunks = self.apply(st, op)
         nrel0 = dict(m.rel_steps)
         self.feed(st, chunks, problems)
+        if getattr(self, "limits", False) and name == "move":
+            # what the hooks (known to this check) make of the requested feed rate decides whether the move is legal
+            f = op[2].get("F") if len(op) > 2 else None
+            for hn in st.registered:
+                if hn == "clampF" and f is not None:
+                    f = min(max(f, 100), 3000)
+                elif hn == "addF":
+                    f = 1500
+            legal = f is None or 100 <= f <= 3000
+            if exc is not None and not legal and isinstance(exc, ValueError):
+                return problems
+            if exc is None and not legal:
+                problems.append(("feed-rate-outside-limits-accepted", f"{op} with hooks {st.registered}: final F {f} is outside [100, 3000] but lines {st.last_lines} were emitted"))
+                return problems
+            if exc is not None:
+                problems.append(("legal-move-refused", f"{op} raised {exc!r} although the hooks {st.registered} bring the feed rate to {f}, inside [100, 3000]"))
+                return problems
         if exc is not None:
             problems.append((f"{name}-raised", f"{op} raised {exc!r} with hooks {st.registered}"))
             return problems
@@ -304,9 +329,12 @@ def systems(tier):
     c = C20System()
     c.hook_names = ("addF", "zeroFS")
     c.state_words = True
+    lim = C20System()
+    lim.hook_names = ("rec", "clampF", "addF")
+    lim.limits = True
     if tier == "quick":
-        return [("hooks", a, 4, None), ("hooks-feed-and-power", c, 3, None), ("hooks-new-mappings", b, 3, None), ("hooks-unknown-position", unknown, 3, None)]
-    return [("hooks", a, 5, None), ("hooks-feed-and-power", c, 5, None), ("hooks-new-mappings", b, 5, None), ("hooks-all", C20System(), 4, None),
+        return [("hooks", a, 4, None), ("hooks-feed-and-power", c, 3, None), ("hooks-feed-limits", lim, 3, None), ("hooks-new-mappings", b, 3, None), ("hooks-unknown-position", unknown, 3, None)]
+    return [("hooks", a, 5, None), ("hooks-feed-and-power", c, 5, None), ("hooks-feed-limits", lim, 4, None), ("hooks-new-mappings", b, 5, None), ("hooks-all", C20System(), 4, None),
             ("hooks-unknown-position", unknown, 4, None)]
 
 
